@@ -1,6 +1,19 @@
 import TinsModel.Wire.L2.ThChainFixpoint
 /-
-  Whole-packet C03, the premise (work in progress header; rewritten at the end)
+  **Whole-packet C03 for the L2 family, the premise** — "if libtins accepts a byte string …".
+
+  `Stackable` (ThChainStep.lean) describes the stacks the protocols can express.  This file shows that it is not an
+  assumption about parsed packets: whatever the nested parsing constructors (`Wire.parseChain`) build — as long as the chain
+  stays inside the family's serializable classes and RawPDU — is `Stackable`, and none of its Dot1Q layers pads
+  (`parse_stackable`).  Per class, `<cls>_parse_link` reads the link to the next layer off the constructor's own decision
+  about its inner PDU (`LinkInner`): e.g. EthernetII hands the rest to RawPDU exactly when `Tags.classOfEther` has no entry
+  for the stored EtherType, an MPLS label hands it to MPLS exactly when its bottom-of-stack bit is clear, the LLC parser
+  never creates XID information fields, the PPPoE parser reads tags only when the code is non-zero.
+
+  `l2_c03` puts the three parts together and is property C03 as stated, for every accepted byte string whose layers are
+  serializable classes of the family over an optional RawPDU: serialize is total, the re-parse succeeds with the same view
+  (`ViewEq`, padding accounted for), and — payload non-empty — the second serialization reproduces the bytes (no exclusion
+  left: `PadKept` holds for every parsed stack).
 -/
 namespace Tins.Wire.L2
 open Tins Tins.Wire
@@ -427,5 +440,48 @@ theorem parse_stackable : ∀ (fuel : Nat) (cls : String) (b : Bytes) (os : List
             · cases h
     · have : modelled cls = false := by simpa using hm
       simp [this] at h
+
+/-- **Property C03 for the L2 family, as stated**: if libtins accepts a byte string `b` (entry class `cls`) and the parsed
+    packet `os` consists of serializable layers of the family over an optional RawPDU, then `serialize()` succeeds, parsing
+    the serialization succeeds and yields the same stack of layers with the same field values and payload bytes — only the
+    fields libtins derives (lengths, next-protocol tags above a recognised payload) and at most `padOf os` bytes of
+    minimum-frame padding behind the payload may differ — and, when the innermost payload is non-empty, serializing the
+    re-parsed packet reproduces the bytes. -/
+theorem l2_c03 (cls : String) (b : Bytes) (os : List AnyObj)
+    (hparse : parseChain (b.length + 2) cls b = .ok os) (hall : ∀ o ∈ os, L2Ser o) :
+    ∃ out, serializeObjs os = .ok out ∧
+      ∃ os', parseChain (out.length + 2) cls out = .ok os' ∧ ViewEq (padOf os) os os' ∧
+        ((splitRaw os).2 ≠ [] → serializeObjs os' = .ok out) := by
+  rcases parse_stackable _ cls b os hparse hall with ⟨hst, hno, h, t, rfl, hhd⟩
+  have hcls : h.info.1 = cls := by
+    cases h with
+    | raw p => exact hhd.symm
+    | l2 y => exact hhd
+    | ip _ => exact (hall _ List.mem_cons_self).elim
+    | ip6 _ => exact (hall _ List.mem_cons_self).elim
+    | icmp _ => exact (hall _ List.mem_cons_self).elim
+    | tr _ => exact (hall _ List.mem_cons_self).elim
+    | app _ => exact (hall _ List.mem_cons_self).elim
+    | wifi _ => exact (hall _ List.mem_cons_self).elim
+  have hser := serializeObjs_wire _ (stackable_good _ hst)
+  rcases l2_chain_reparse h t hst _ hser with ⟨os', hp, hv⟩
+  rw [hcls] at hp
+  refine ⟨_, hser, os', hp, hv, fun hne => ?_⟩
+  exact l2_chain_reserialize_fixpoint_partial h t _ os' hst (padKept_of_noAppend _ hno) hne hser (by rw [hcls]; exact hp)
+
+/-- non-vacuity: a frame `EthernetII / Dot1Q / RawPDU` of 22 bytes (shorter than the minimum frame) is accepted, its
+    re-serialization carries 38 bytes of padding, and the theorem applies to it -/
+def exFrame : Bytes := [1,2,3,4,5,6, 7,8,9,10,11,12, 0x81,0x00, 0x20,0x09,0x11,0x11, 0xde,0xad,0xbe,0xef]
+def exFrame_os : List AnyObj :=
+  [.l2 (.eth ⟨[1,2,3,4,5,6], [7,8,9,10,11,12], 0x8100⟩), .l2 (.dot1q ⟨1, 0, 9, 0x1111, false⟩), .raw [0xde, 0xad, 0xbe, 0xef]]
+example : parseChain (exFrame.length + 2) "EthernetII" exFrame = .ok exFrame_os := rfl
+example : padOf exFrame_os = 38 := rfl
+example : ∃ out, serializeObjs exFrame_os = .ok out ∧
+    ∃ os', parseChain (out.length + 2) "EthernetII" out = .ok os' ∧ ViewEq (padOf exFrame_os) exFrame_os os' ∧
+      ((splitRaw exFrame_os).2 ≠ [] → serializeObjs os' = .ok out) :=
+  l2_c03 "EthernetII" exFrame exFrame_os rfl
+    (fun o ho => by
+      simp only [exFrame_os, List.mem_cons, List.mem_nil_iff, or_false] at ho
+      rcases ho with rfl | rfl | rfl <;> trivial)
 
 end Tins.Wire.L2
